@@ -242,7 +242,71 @@ def gen_deblock():
     write_if_changed("GenDeblock.v", body)
 
 
-GENERATORS = [gen_deblock]
+def gen_yuv():
+    rel = "yuv/src/bt601.rs"
+    src = read_src(rel)
+    body = HEADER % rel
+    names = {}
+    try:
+        if src is None:
+            raise Untranslatable("file missing")
+        m = re.search(r"fn\s+yuv_to_rgba_4x\b.*?\n}\n", src, re.S)
+        if not m:
+            raise Untranslatable("yuv_to_rgba_4x not found")
+        f = m.group(0)
+        def splat_of(var, op):
+            mm = re.search(r"let\s+%s\s*(?::\s*i32x4\s*)?=\s*(\w+)\s*\%s\s*i32x4::splat\((-?\d+)\)\s*;" % (var, op), f)
+            if not mm:
+                raise Untranslatable("no `let %s = _ %s splat(_)`" % (var, op))
+            return mm.group(1), int(mm.group(2))
+        for var, src_var in [("gray", "y"), ("cr2r", "cr"), ("cr2g", "cr"), ("cb2g", "cb"), ("cb2b", "cb")]:
+            v, k = splat_of(var, "*")
+            if v != src_var:
+                raise Untranslatable("%s multiplies %s, expected %s" % (var, v, src_var))
+            names["k_" + var] = k
+        mm = re.search(r"let\s+half\s*=\s*i32x4::splat\((\d+)\)", f)
+        if not mm:
+            raise Untranslatable("half")
+        names["k_half"] = int(mm.group(1))
+        # offsets: `let y = i32x4::from([...]) - i32x4::splat(16);`
+        offs = re.findall(r"let\s+(y|cb|cr)\s*=\s*i32x4::from\(\[.*?\]\)\s*-\s*i32x4::splat\((\d+)\)", f, re.S)
+        od = dict(offs)
+        if set(od) != {"y", "cb", "cr"} or od["cb"] != od["cr"]:
+            raise Untranslatable("offsets")
+        names["k_yoff"] = int(od["y"])
+        names["k_coff"] = int(od["cb"])
+        # the three channel sums and their shift
+        chans = {}
+        for ch in ["r", "g", "b"]:
+            mm = re.search(r"let\s+%s\s*:\s*i32x4\s*=\s*\(([^)]*)\)\s*>>\s*(\d+)\s*;" % ch, f)
+            if not mm:
+                raise Untranslatable("channel " + ch)
+            chans[ch] = (sorted(x.strip() for x in mm.group(1).split("+")), int(mm.group(2)))
+        if len(set(c[1] for c in chans.values())) != 1:
+            raise Untranslatable("shifts differ")
+        names["k_shift"] = chans["r"][1]
+        want = {"r": sorted(["gray", "cr2r", "half"]), "g": sorted(["gray", "cr2g", "cb2g", "half"]), "b": sorted(["gray", "cb2b", "half"])}
+        for ch in want:
+            if chans[ch][0] != want[ch]:
+                raise Untranslatable("channel %s sums %s" % (ch, chans[ch][0]))
+        mm = re.search(r"let\s+max\s*=\s*i32x4::splat\((\d+)\)", f)
+        ma = re.search(r"let\s+a\s*=\s*i32x4::splat\((\d+)\)", f)
+        if not mm or not ma:
+            raise Untranslatable("max/alpha")
+        names["k_max"] = int(mm.group(1))
+        names["k_alpha"] = int(ma.group(1))
+        for k in ["k_gray", "k_cr2r", "k_cr2g", "k_cb2g", "k_cb2b", "k_half", "k_shift", "k_yoff", "k_coff", "k_max", "k_alpha"]:
+            body += "Definition %s : Z := %s.\n" % (k, zlit(names[k]))
+        STATUS["yuv.constants"] = "ok"
+    except Untranslatable as e:
+        body += "(* untranslatable: %s *)\n" % e
+        for k in ["k_gray", "k_cr2r", "k_cr2g", "k_cb2g", "k_cb2b", "k_half", "k_shift", "k_yoff", "k_coff", "k_max", "k_alpha"]:
+            body += "Definition %s : Z := 0.\n" % k
+        STATUS["yuv.constants"] = "untranslatable: %s" % e
+    write_if_changed("GenYuv.v", body)
+
+
+GENERATORS = [gen_deblock, gen_yuv]
 
 
 def main():
